@@ -210,6 +210,15 @@ class MediaRequestBase(RequestHandlerBase):
         # Update the sequenceNumber field in the MovieFragmentHeader
         # box
         moof.mfhd.sequence_number = seg_num
+        if seg_time is not None and timing.mode == 'live' and origin_time >= 0:
+            # seg_num was estimated as time // nominal duration, which repeats or
+            # skips numbers when the segment durations vary. Number the fragments
+            # consecutively: by loop count and position in the file
+            ref_duration_tc = timing.stream_reference.media_duration_using_timescale(
+                representation.timescale)
+            moof.mfhd.sequence_number = int(
+                (origin_time // ref_duration_tc) * representation.num_media_segments +
+                mod_segment)
         diff = None
         if seg_time is not None:
             diff = seg_time - tfdt.base_media_decode_time
